@@ -13,12 +13,39 @@ RULE = ('parsed packets of every stack x matching rules x near-miss mutants (tar
 ASSUMPTIONS = ['target values have the type their matching operator expects (the library asserts it)']
 
 
+def operators_direct(rep, rnd, pd):
+    """the four matching operators as the module microschc.matching.operators exports them, called directly on field descriptors and
+    target values of either padding side: equal = same bits and length, ignore = True, MSB(x) = field at least x bits long whose
+    first x bits are the pattern, match-mapping = some key with the field's bits"""
+    from microschc.matching import operators as ops
+    from core import bits_of, mk, L, R, mkmap, impl_outcome
+    for f in rnd.sample(pd.fields, min(4, len(pd.fields))):
+        fb = bits_of(f.value)
+        cands = [fb, fb + '0', fb[:-1], ('1' if fb[:1] == '0' else '0') + fb[1:], randbits(rnd, len(fb))]
+        for c in cands:
+            tv = mk(c, rnd.choice([L, R]))
+            pat = mk(c[:rnd.randint(0, len(c))], rnd.choice([L, R]))
+            pb = bits_of(pat)
+            keys = [x for x in {fb[::-1], c, randbits(rnd, max(1, len(fb)))}]
+            mm = mkmap({mk(k, rnd.choice([L, R])): mk(format(j, '03b')) for j, k in enumerate(keys)})
+            got = impl_outcome(lambda: (ops.equal(f, tv), ops.ignore(f), ops.most_significant_bits(f, pat), ops.match_mapping(f, mm)))
+            want = ('OK', (c == fb, True, len(pb) <= len(fb) and fb[:len(pb)] == pb, fb in keys))
+            rep.count('operators-direct', key=('opd', fb, c, pb))
+            rep.oracle_evals += 1
+            if got != want:
+                rep.violation('property', 'matching operators called directly on field %r: (equal %r, ignore, MSB %r, match-mapping %r) give %s, expected %s' % (fb, c, pb, keys, got, want),
+                              dict(layer='schc', op='operators-direct', field=fb, target=c, pattern=pb, keys=keys))
+                return
+
+
 def run(rep, tier, seed):
     rnd = rng_for(seed, 'C04')
     b = Batch(rep)
     npk = 450 if tier == 'quick' else 4000
     for i in range(npk):
         stack, pkt, st, pd = gen_parsed(rnd, ALL_STACKS[i % len(ALL_STACKS)])
+        if i % 3 == 0:
+            operators_direct(rep, rnd, pd)
         # the same Ruler object sees packets of both directions, several times (a matcher must not remember the previous packet)
         from microschc.ruler.ruler import Ruler
         from p_c18 import dir_rule
